@@ -415,9 +415,63 @@ class CompToLoop(ast.NodeTransformer):
         return node
 
 
+class AddNoise(ast.NodeTransformer):
+    """insert a harmless statement-level call `str(0)` at the top of every function."""
+
+    def visit_FunctionDef(self, node):
+        self.generic_visit(node)
+        first = 1 if (node.body and isinstance(node.body[0], ast.Expr)
+                      and isinstance(node.body[0].value, ast.Constant)
+                      and isinstance(node.body[0].value.value, str)) else 0
+        noise = ast.Expr(ast.Call(func=ast.Name(id="str", ctx=ast.Load()),
+                                  args=[ast.Constant(0)], keywords=[]))
+        node.body = node.body[:first] + [noise] + node.body[first:]
+        return node
+
+
+class ElseAfterReturn(ast.NodeTransformer):
+    """`if c: ...return` / `else: B`  ->  `if c: ...return` / B   (and the converse is left
+    alone): only when the if-body ends in return/raise."""
+
+    def _flat(self, body):
+        out = []
+        for st in body:
+            if isinstance(st, ast.If) and st.orelse and st.body and isinstance(
+                    st.body[-1], (ast.Return, ast.Raise)):
+                out.append(ast.If(test=st.test, body=st.body, orelse=[]))
+                out.extend(st.orelse)
+            else:
+                out.append(st)
+        return out
+
+    def generic_visit(self, node):
+        super().generic_visit(node)
+        for f in ("body", "orelse", "finalbody"):
+            v = getattr(node, f, None)
+            if isinstance(v, list) and v and isinstance(v[0], ast.stmt):
+                setattr(node, f, self._flat(v))
+        return node
+
+
+class AugAssign(ast.NodeTransformer):
+    """`x = x + e` -> `x += e` for plain names (numbers / immutable values only: skipped
+    when e is a list / dict display)."""
+    OPS = {ast.Add: ast.Add, ast.Sub: ast.Sub, ast.Mult: ast.Mult}
+
+    def visit_Assign(self, node):
+        if len(node.targets) == 1 and isinstance(node.targets[0], ast.Name) \
+                and isinstance(node.value, ast.BinOp) and type(node.value.op) in self.OPS \
+                and isinstance(node.value.left, ast.Name) \
+                and node.value.left.id == node.targets[0].id \
+                and not isinstance(node.value.right, (ast.List, ast.Dict, ast.ListComp)):
+            return ast.AugAssign(target=ast.Name(id=node.targets[0].id, ctx=ast.Store()),
+                                 op=type(node.value.op)(), value=node.value.right)
+        return node
+
+
 TRANSFORMS = ["inline_calls", "strip_ann", "ret_tmp", "if_swap", "cmp_flip", "rename", "kwargs", "assign_tmp",
               "unpack_index", "and_split", "ternary_if", "demorgan", "chain_split", "swap_indep",
-              "lambda_def", "comp_loop"]
+              "lambda_def", "comp_loop", "add_noise", "else_after_return", "aug_assign"]
 
 
 def apply(name, repo, root):
@@ -427,7 +481,8 @@ def apply(name, repo, root):
              "assign_tmp": AssignTmp, "unpack_index": UnpackIndex,
              "and_split": AndSplit, "strip_ann": StripAnn, "ternary_if": TernaryToIf,
              "demorgan": DeMorgan, "chain_split": ChainSplit, "swap_indep": SwapIndep,
-             "lambda_def": LambdaToDef, "comp_loop": CompToLoop}.get(name)
+             "lambda_def": LambdaToDef, "comp_loop": CompToLoop, "add_noise": AddNoise,
+             "else_after_return": ElseAfterReturn, "aug_assign": AugAssign}.get(name)
         tree = (Kwargs(repo, mi) if name == "kwargs" else InlineStmtCalls(repo, mi)
                 if name == "inline_calls" else t()).visit(tree)
         ast.fix_missing_locations(tree)
